@@ -233,7 +233,11 @@ def cachekey(ctx):
         if tag in P.reg.mats:
             M = P.reg.mats[tag]
             try:
-                M2 = I.getattr(cref, '_fd_matrix')(*k)
+                try:
+                    builder = I.getattr(cref, '_fd_matrix')
+                except InterpRaise:
+                    raise AnalysisError('anchor vanished: LogRule._fd_matrix (the builder of the matrix whose inverse is cached)')
+                M2 = builder(*k)
                 ok = isinstance(M2, Arr) and M2.shape == M.shape and all(a == b for a, b in zip(M2.items(), M.items()))
             except (InterpRaise, TypeError) as exc:
                 fact['problem'] = 'key is not the argument tuple of _fd_matrix: %s' % exc
